@@ -2229,6 +2229,7 @@ func (s *Server) ServeConn(c net.Conn) error {
 	}
 	defer s.releaseConcurrency()
 
+	s.setState(c, StateNew)
 	s.open.Add(1)
 
 	err := s.serveConnCounted(c, false)
@@ -2423,17 +2424,16 @@ func (s *Server) serveConnCounted(c net.Conn, countConcurrency bool) error {
 				br = acquireReader(ctx)
 			}
 
-			// If this is a keep-alive connection we want to try and read the first bytes
+			// Wait for the first byte of the request before reporting the
+			// connection as active. On a keep-alive connection this happens
 			// within the idle time.
-			if connRequestNum > 1 {
-				var b []byte
-				b, err = br.Peek(1)
-				if len(b) == 0 {
-					// If reading from a keep-alive connection returns nothing it means
-					// the connection was closed (either timeout or from the other side).
-					if err != io.EOF {
-						err = ErrNothingRead{error: err}
-					}
+			var b []byte
+			b, err = br.Peek(1)
+			if len(b) == 0 {
+				// If reading from a keep-alive connection returns nothing it means
+				// the connection was closed (either timeout or from the other side).
+				if err != io.EOF {
+					err = ErrNothingRead{error: err}
 				}
 			}
 		} else {
